@@ -547,6 +547,76 @@ fn main() {
             both_placements(&run, t, &format!("2nb{}", a), &format!("2nb{}", b));
         }
     });
+    // (f) two-site family: a base of n components in which every pair of positions takes every
+    // pair of tokens from a small set, with and without a revision - coincidences between two
+    // tokens at a distance, which <= 3-token versions cannot contain
+    {
+        let n = run.pick(6, 8);
+        let set: Vec<&str> = if run.thorough() { vec!["0", "1", "7", "10", "alpha", "beta", "rc", "pl", "a", "z", "nb3", "", "00"] } else { vec!["0", "1", "10", "alpha", "rc", "pl", "a", "nb3", "", "00"] };
+        let mut two: Vec<String> = vec![];
+        for i in 0..n {
+            for j in i + 1..n {
+                for x in &set {
+                    for y in &set {
+                        let comps: Vec<&str> = (0..n).map(|k| if k == i { *x } else if k == j { *y } else { "1" }).collect();
+                        let v = comps.join(".");
+                        two.push(format!("{}nb2", v));
+                        two.push(v);
+                    }
+                }
+            }
+        }
+        two.sort();
+        two.dedup();
+        run.bound(format!("(f) two-site family: {} versions ({} components, every pair of positions x every pair of {} tokens, with and without a revision), all ordered pairs x 4 operators", two.len(), n, set.len()));
+        let toks: Vec<(dewey::Ver, dewey::Ver)> = two.iter().map(|v| (dewey::tokenise(v, LetterWeight::Rank), dewey::tokenise(v, LetterWeight::AsciiLower))).collect();
+        let idx: Vec<usize> = (0..two.len()).collect();
+        par_items(&run, "C01(f) two-site", &idx, |_, ai, t| {
+            let a = &two[*ai];
+            let name = format!("p-{}", a);
+            for (bi, b) in two.iter().enumerate() {
+                t.states += 1;
+                t.transitions += 1;
+                t.evals += 1;
+                for op in OPS {
+                    let pat = format!("p{}{}", op_name(op), b);
+                    t.validated += 1;
+                    match guard(|| Pattern::new(&pat).map(|p| p.matches(&name))) {
+                        Ok(Ok(got)) => judge(&run, t, a, b, op, got, &toks[*ai].0, &toks[bi].0, &toks[*ai].1, &toks[bi].1),
+                        other => t.violation(Violation::new("cmp", cmp_case(a, b, op), json!("a verdict"), json!(format!("{:?}", other.map(|r| r.map_err(|e| e.to_string())))), "two-site version")),
+                    }
+                }
+                t.nontrivial += 1;
+            }
+            t.outcome("two-site/row");
+        });
+    }
+    // (g) digit runs of every length 1..18 in five digit patterns with 0..3 leading zeros, as a
+    // component and as a revision, all ordered pairs
+    {
+        let mut runs: Vec<String> = vec![];
+        for len in 1..=18usize {
+            let pats = ["1".repeat(len), "9".repeat(len), format!("1{}", "0".repeat(len - 1)), "12345678901234567890"[..len].to_string(), format!("{}8", "9".repeat(len - 1))];
+            for p in pats {
+                for z in 0..=3usize {
+                    if z + len <= 18 {
+                        runs.push(format!("{}{}", "0".repeat(z), p));
+                    }
+                }
+            }
+        }
+        runs.sort();
+        runs.dedup();
+        run.bound(format!("(g) {} digit runs (lengths 1..18, five digit patterns, 0..3 leading zeros) as component and as revision, all ordered pairs", runs.len()));
+        par_items(&run, "C01(g) digit runs", &runs, |_, a, t| {
+            for b in &runs {
+                t.states += 1;
+                t.transitions += 2;
+                both_placements(&run, t, &format!("1.{}", a), &format!("1.{}", b));
+                both_placements(&run, t, &format!("2nb{}", a), &format!("2nb{}", b));
+            }
+        });
+    }
     // (e) character sweep: every ASCII character and 64 non-ASCII characters chosen per Unicode
     // behaviour (case mappings into ASCII, digits of other scripts, every white-space character,
     // combining marks, 2/3/4-byte encodings) in seven positions of a version, against eight probes
